@@ -50,7 +50,7 @@ checks.update({
    text="Every subset of <=2 (thorough 3) of the 32 public options plus the four profiles x a byte-level input core, all 2^14 flag vectors x a trigger core, Sigma_B^<=3 under every single option, every setter with every value of Sigma_B^<=2, and all histories of depth 2 over ~170 operations (incl. Iterate, SetSearchParams, NewUrl) under every single option/profile: no panic, no budget overrun, URL-with-working-getters xor error.",
    note="Trusted: the generated statement counter. BasicParser is driven only in the argument combinations the library itself uses; nil pointers as arguments are outside 'argument strings'. Not covered: inputs longer than the bounds outside the menus; option subsets of size >=4 that are not flag vectors."),
  "C06": dict(level="exploration", design="§5 C06", technique="bounded exhaustive enumeration of (base, reference) pairs with model-free relational oracles between the three resolution entry points",
-   text="Bases = 40-string menu + slot product (<=2, thorough 3 deviating slots); references = '', all '#f' / '?q' over Sigma^<=2, all scheme-less references over (Sigma minus ':')^<=k, and the serialization of every parsed base (B x B); the three entry points must agree and the five laws of the statement must hold for every pair.",
+   text="Bases = 40-string menu + slot product (<=2 deviating slots); references = '', all '#f' / '?q' over Sigma^<=2, all scheme-less references over (Sigma minus ':')^<=k, and the serialization of every parsed base (B x B); the three entry points must agree and the five laws of the statement must hold for every pair.",
    note="Implementation against itself; no model. Gives a model-independent cross-check of the with-base half of C01."),
  "C14": dict(level="model_checking", design="§5 C14", technique="stateless model checking of the real code: all thread interleavings up to a preemption bound under a controlled scheduler with statement-level scheduling points, Go race detector as per-schedule oracle",
    text="For every scenario (pairs of ~80 calls on shared package functions, Parsers, predefined profiles and shared base URLs; 3-thread and 2-calls-per-thread scenarios) all schedules with <=1 preemption (thorough 2) are executed on freshly built shared objects, plus one cold-process execution per scenario; oracles: race detector (hand-off creates no happens-before edge), result == solo result, package-level variables and shared URL observables unchanged, no panic.",
